@@ -117,6 +117,21 @@ def _alias_cases(rng, n):
                "alias": kind, "k": k, "t": [str(Fraction(v)) for v in t], "layout": "contig,contig,contig", "hist": "none"}
 
 
+def _int_cases(rng, n):
+    """integer samples and integer queries of different integer dtypes (unsigned counters looked up with signed
+    offsets, narrow and wide types): every value is exact in every dtype it is stored in"""
+    for _ in range(n):
+        dx, dq = rng.choice([("uint64", "int64"), ("int64", "uint64"), ("uint64", "int64"), ("uint8", "int16"),
+                             ("int32", "uint16"), ("uint32", "int8"), ("int64", "int64"), ("uint64", "uint64")])
+        lo_x = 0 if dx.startswith("u") else -20
+        lo_q = 0 if dq.startswith("u") else -20
+        xs = sorted({rng.randint(lo_x, 60) for _ in range(rng.randint(1, 10))})
+        qs = sorted(rng.randint(lo_q, 70) for _ in range(rng.randint(1, 8)))
+        s, f = rng.choice(VARIANTS)
+        yield {"x": [str(Fraction(v)) for v in xs], "q": [str(Fraction(v)) for v in qs], "s": s, "fill": f,
+               "dtypes": [dx, dq], "layout": "contig,contig,contig"}
+
+
 def _malformed(rng, n):
     for _ in range(n):
         xs = sorted({rng.randint(-5, 5) for _ in range(rng.randint(0, 4))})
@@ -139,18 +154,21 @@ def cases(rng, tier):
     if tier == "quick":
         yield from _long_cases(rng, 60)
         yield from _alias_cases(rng, 150)
+        yield from _int_cases(rng, 300)
         yield from _lattice_cases(4, 4, 3)
         yield from _float_cases(rng, 2000)
         yield from _malformed(rng, 300)
     elif tier == "thorough":
         yield from _long_cases(rng, 600)
         yield from _alias_cases(rng, 2000)
+        yield from _int_cases(rng, 4000)
         yield from _lattice_cases(5, 5, 4)
         yield from _float_cases(rng, 20000)
         yield from _malformed(rng, 2000)
     else:  # search
         yield from _long_cases(rng, 40)
         yield from _alias_cases(rng, 100)
+        yield from _int_cases(rng, 200)
         yield from _float_cases(rng, 1500)
         yield from _lattice_cases(3, 3, 2)
         yield from _malformed(rng, 100)
@@ -171,6 +189,9 @@ def run_impl(c):
     x, q = _vals(c)
     xa = S.arr([float(v) for v in x], dtype=float)
     qa = S.arr([float(v) for v in q], dtype=float)
+    if c.get("dtypes"):
+        xa = S.arr([int(v) for v in x], dtype=c["dtypes"][0])
+        qa = S.arr([int(v) for v in q], dtype=c["dtypes"][1])
     if c.get("alias"):
         t = np.array([float(Fraction(v)) for v in c["t"]], dtype=float)
         k = c["k"]
